@@ -223,6 +223,26 @@ func genC04(r *rand.Rand, tier string, env *Env) []Case {
 			Ops:     []Op{{"cmdline.regexpStr", [][]byte{[]byte(sh), []byte(pat[0]), []byte(pat[1]), []byte(pat[2]), []byte(w)}}},
 			Oracles: []Op{{"c04.member", args}}})
 	}
+	// verbatim lines, fixed: the marker is ONE leading apostrophe, whatever follows it (more apostrophes, the other
+	// markers, blanks, escapes) is the entry
+	for _, rest := range []string{"ls", "'ls", "''?cat", "'", "'+id", "'@", "' x", "@", "~", "\\@", "a b", "a ", "\\'", "'\\''", "x'", "[']+"} {
+		for _, shell := range []string{"unix", "windows"} {
+			cfg := cfgMenu[(len(rest)+len(shell))%len(cfgMenu)]
+			var cb [][]byte
+			for _, c := range cfg {
+				cb = append(cb, []byte(c))
+			}
+			pat, sh := cfg[0:3], "u"
+			if shell == "windows" {
+				pat, sh = cfg[3:6], "w"
+			}
+			w := "'" + rest
+			args := append([][]byte{[]byte(shell), []byte(w), []byte("alone")}, cb...)
+			cases = append(cases, Case{Kind: "verbatim-line",
+				Ops:     []Op{{"cmdline.regexpStr", [][]byte{[]byte(sh), []byte(pat[0]), []byte(pat[1]), []byte(pat[2]), []byte(w)}}},
+				Oracles: []Op{{"c04.member", args}}})
+		}
+	}
 	// whole programs with cmdline blocks: language equality with the plain reading (shared with C01)
 	m := n / 3
 	for i := 0; i < m; i++ {
